@@ -9,8 +9,8 @@
    Engine-level theorems (whole-engine model, trace correspondence) are added by the lead below the marker at the end. *)
 From Coq Require Import List Arith Bool.
 Require Import Mistral.Gen.States Mistral.Gen.Locks.
-Require Import Mistral.Model.Join Mistral.Model.Reverse Mistral.Model.JoinProto.
-Require Import Mistral.Proofs.JoinProofs Mistral.Proofs.ReverseProofs Mistral.Proofs.JoinProtoProofs.
+Require Import Mistral.Model.Join Mistral.Model.Reverse Mistral.Model.JoinProto Mistral.Model.JoinLife.
+Require Import Mistral.Proofs.JoinProofs Mistral.Proofs.ReverseProofs Mistral.Proofs.JoinProtoProofs Mistral.Proofs.JoinLifeProofs.
 Import ListNotations.
 
 (* ---------------------------------------------------------------- direct workflows: the join decision *)
@@ -18,22 +18,27 @@ Import ListNotations.
 (* _possible_route: whenever it returns (any stack budget, any start depth, any definition incl. cyclic ones,
    any rows) its answer is exactly "a route to the task is still possible". *)
 Theorem C04_possible_route_exact : forall sp rows fuel t depth b d,
-  possible_route fuel sp rows t depth = Ok (b, d) -> (b = true <-> possible sp rows t).
+  possible_route_top fuel sp rows t depth = Ok (b, d) -> (b = true <-> possible sp rows t).
 Proof. exact possible_route_exact. Qed.
 Print Assumptions C04_possible_route_exact.
 
-Theorem C04_possible_route_fuel_mono : forall sp rows fuel m t depth x,
-  possible_route fuel sp rows t depth = Ok x -> possible_route (fuel + m) sp rows t depth = Ok x.
+Theorem C04_possible_route_fuel_mono : forall sp rows fuel m vis t depth x,
+  possible_route fuel sp rows vis t depth = Ok x -> possible_route (fuel + m) sp rows vis t depth = Ok x.
 Proof. exact possible_route_fuel_mono. Qed.
 Print Assumptions C04_possible_route_fuel_mono.
 
-(* no stack overflow on definitions without cycles: MAX_SEARCH_DEPTH does not limit the search, the
-   recursion depth is bounded by the longest inbound chain *)
-Theorem C04_possible_route_acyclic : forall sp rows (rank : nat -> nat),
-  (forall t s, In s (inbound_names sp t) -> rank s < rank t) ->
-  forall fuel t depth, rank t < fuel -> possible_route fuel sp rows t depth <> OutOfFuel.
-Proof. exact possible_route_acyclic. Qed.
-Print Assumptions C04_possible_route_acyclic.
+(* ... and it always returns: the `visited` set bounds the nesting by the number of tasks, on every definition
+   (cycles included); MAX_SEARCH_DEPTH only limits the cache pre-population, not the search. *)
+Theorem C04_possible_route_total : forall sp rows fuel t depth,
+  length sp + 1 < fuel -> exists b d, possible_route_top fuel sp rows t depth = Ok (b, d).
+Proof. exact possible_route_total. Qed.
+Print Assumptions C04_possible_route_total.
+
+(* so the evaluation of a join never raises: it always yields RUNNING, ERROR or WAITING *)
+Theorem C04_logical_total : forall sp rows fuel j k,
+  length sp + 1 < fuel -> exists st c tr, logical fuel sp rows j k = Ok (st, c, tr).
+Proof. exact logical_total. Qed.
+Print Assumptions C04_logical_total.
 
 (* The logical state of a join (all definitions, all row sets, all join kinds, all inbound counts):
    RUNNING iff the required number of inbound tasks completed AND routed to it (or it has no inbound task),
@@ -91,17 +96,6 @@ Theorem C04_step_update : forall sp rows1 r r' rows2,
   evolve1 sp (rows1 ++ r :: rows2) (rows1 ++ r' :: rows2).
 Proof. exact evolve1_update. Qed.
 Print Assumptions C04_step_update.
-
-(* FINDING (the faithful model refutes "fails instead of waiting forever" on definitions with a cycle):
-   the join needs both inbound tasks, one of them can never route to it in any continuation, yet for every
-   stack budget the evaluation raises instead of returning ERROR. *)
-Theorem C04_join_fails_when_unreachable_refuted :
-  (forall fuel, logical fuel cyc_sp cyc_rows 4 JAll = OutOfFuel) /\
-  dead cyc_sp cyc_rows 4 3 /\
-  (forall rows' nr, evolves cyc_sp cyc_rows rows' ->
-     countP (routed rows' 4) (inbound_names cyc_sp 4) nr -> nr < needed JAll (length (inbound_names cyc_sp 4))).
-Proof. exact join_cycle_never_fails. Qed.
-Print Assumptions C04_join_fails_when_unreachable_refuted.
 
 (* ---------------------------------------------------------------- reverse workflows *)
 
@@ -175,6 +169,35 @@ Theorem C04_unguarded_race :
 Proof. exact (conj act_twice_without_guards (conj act_twice_without_recheck act_twice_with_stale_recheck)). Qed.
 Print Assumptions C04_unguarded_race.
 
+(* ---------------------------------------------------------------- one join execution over time *)
+
+(* triggers, refresh jobs and completions in any order and number: when a completed join is not re-armed by a
+   late trigger, it starts at most once ... *)
+Theorem C04_join_life_once : forall k evs, starts (life_run false k evs) <= 1.
+Proof. exact life_once. Qed.
+Print Assumptions C04_join_life_once.
+
+(* ... and (re-arming or not) never before k inbound tasks routed to it *)
+Theorem C04_join_life_start_sound : forall rearm k evs,
+  0 < starts (life_run rearm k evs) -> k <= routed_n (life_run rearm k evs).
+Proof. exact life_start_sound. Qed.
+Print Assumptions C04_join_life_start_sound.
+
+(* with re-arming, a partial join (1 of 2) starts twice when the second branch arrives after it completed *)
+Theorem C04_partial_join_rerun_witness :
+  starts (life_run true 1 [Trigger; Refresh; Complete; Trigger; Refresh]) = 2.
+Proof. exact life_twice_with_rearm. Qed.
+Print Assumptions C04_partial_join_rerun_witness.
+
+(* For the source as it is (Gen/Locks.v: what Task.defer does to a completed join execution in a definition
+   where the join is not on a cycle): "at most one start for all k and all event sequences" holds exactly when
+   the extracted flag is false.  While it is true the property is refuted by the witness above, and the
+   implementation oracle shows the failing run (signature partial-join-rerun-by-late-branch). *)
+Theorem C04_join_once_iff_completed_join_not_rearmed :
+  (forall k evs, starts (life_run defer_rearm_acyclic k evs) <= 1) <-> defer_rearm_acyclic = false.
+Proof. exact (life_once_iff defer_rearm_acyclic). Qed.
+Print Assumptions C04_join_once_iff_completed_join_not_rearmed.
+
 (* ---------------------------------------------------------------- non-vacuity *)
 
 (* fork t0 -> t1, t2; join t3 = all.  One branch done: WAITING; the run continues (t2 completes and routes):
@@ -191,11 +214,13 @@ Example C04_nonvacuous :
   logical 8 sp rows_bad 3 JAll = Ok (ERROR, 0, [2]) /\
   evolve1 sp rows rows_ok /\ evolve1 sp rows rows_bad /\
   next_tasks [mkRT 0 [1; 2]; mkRT 1 [2]; mkRT 2 []; mkRT 3 [0]] [mkRR 2 SUCCESS] 0 = [1] /\
-  all_done (run (defer_cfg true) 3 (flat_map (fun _ => [0; 1; 2]) (seq 0 12))) 3 = true.
+  all_done (run (defer_cfg true) 3 (flat_map (fun _ => [0; 1; 2]) (seq 0 12))) 3 = true /\
+  (* a join behind a cycle of tasks that can never start fails instead of waiting (regression of a fixed defect) *)
+  logical 8 cyc_sp cyc_rows 4 JAll = Ok (ERROR, 0, []).
 Proof.
   cbv zeta.
   split; [vm_compute; reflexivity|]. split; [vm_compute; reflexivity|]. split; [vm_compute; reflexivity|].
-  split; [|split; [|split; vm_compute; reflexivity]].
+  split; [|split; [|split; [|split]; vm_compute; reflexivity]].
   - apply (evolve1_update _ [mkRow 0 0 SUCCESS (Some [1; 2]); mkRow 1 1 SUCCESS (Some [3])]
              (mkRow 2 2 RUNNING None) (mkRow 2 2 SUCCESS (Some [3])) [mkRow 3 3 WAITING None]); reflexivity.
   - apply (evolve1_update _ [mkRow 0 0 SUCCESS (Some [1; 2]); mkRow 1 1 SUCCESS (Some [3])]
